@@ -1,6 +1,7 @@
 import SaphyrModel.Driver.Codec
 import SaphyrModel.Grammar
 import SaphyrModel.Spec.Positions
+import SaphyrModel.Spec.CoreSchema
 /-! Line-protocol driver of the model (`lean_exe saphyr_model`): answers the same requests as the
 Rust harness `impl_run`, from the model's executable definitions. -/
 open SaphyrModel SaphyrModel.Sc SaphyrModel.Driver ProtoR ProtoE
@@ -141,7 +142,11 @@ def parseTree : Nat → List String → Option (Y × List String)
     else if tok.startsWith "D:" then
       -- D:<bits>:<hex of the Display text supplied by the harness>
       match tok.splitOn ":" with
-      | [_, _, disp] => some (.float (decodeHex disp), rest)
+      | [_, bits, disp] =>
+        let cls : FloatClass :=
+          if bits == "7ff0000000000000" then .posInf else if bits == "fff0000000000000" then .negInf
+          else if bits == "7ff8000000000000" then .nan else .finite
+        some (.float cls (decodeHex disp), rest)
       | _ => none
     else if tok.startsWith "Q:" then
       let n := (tok.drop 2).toString.toNat!
@@ -219,6 +224,20 @@ def runPos (hex : String) (fields : List String) : String :=
     | it :: r => if (marksOf it).all (Spec.markTrue text) then go (i + 1) r else s!"bad {i}"
   go 0 items
 
+/-- `core <text>`: what the YAML 1.2 core schema says about a plain scalar (spec oracle for C08):
+    `null` | `bool:<b>` | `int:<i>[ float:<f>]` | `float:<f>` | `str` -/
+def runCore (hex : String) : String :=
+  let s := decodeHex hex
+  let fl := match Spec.coreFloat s with | some f => s!" float:{showFloat f}" | none => ""
+  if Spec.coreNull s then "null"
+  else match Spec.coreBool s with
+    | some b => s!"bool:{b}"
+    | none => match Spec.coreInt s with
+      | some i => s!"int:{i}{fl}"
+      | none => match Spec.coreFloat s with
+        | some f => s!"float:{showFloat f}"
+        | none => "str"
+
 def runLine (line : String) : String :=
   match line.trimAscii.toString.splitOn " " with
   | ["tok", kind, cap, hex] => runTok kind cap hex
@@ -246,6 +265,8 @@ def runLine (line : String) : String :=
     | none => "bad-tree"
   | ["cls", cp] => runCls cp
   | "gram" :: rest => runGram rest
+  | ["core", h] => runCore h
+  | ["core"] => runCore ""
   | "pos" :: hex :: rest => runPos hex rest
   | _ => "bad-op"
 
